@@ -2231,6 +2231,7 @@ func (p *Parser) parseSources(subqueries bool) (Sources, error) {
 // peekRune returns the next rune that would be read by the scanner.
 func (p *Parser) peekRune() rune {
 	r, _, _ := p.s.s.r.ReadRune()
+	verifNotePeek(p)
 	if r != eof {
 		_ = p.s.s.r.UnreadRune()
 	}
